@@ -425,6 +425,9 @@ class Interp:
             if isinstance(cur, list) and opname == "Add":
                 cur.extend(list(rhs))
                 return
+            if hasattr(cur, "__aovc_inplace__"):
+                fr.env[t.id] = cur.__aovc_inplace__(self, opname, rhs, t.id)
+                return
             fr.env[t.id] = self.binop(opname, cur, rhs)
         elif isinstance(t, ast.Subscript):
             base = self.eval(t.value, fr)
@@ -761,6 +764,10 @@ class Interp:
         if op == "Mult":
             return s_mul(a, b, c)
         if op == "Div":
+            if getattr(self, "in_try", 0) > 0 and is_z3(b) and z3.is_arith(b):
+                # inside try: a zero divisor raises ZeroDivisionError (python float semantics)
+                if self.ctx.branch(b == 0):
+                    raise PyException("ZeroDivisionError", "division by zero")
             return s_div(a, b, c)
         if op == "Pow":
             return s_pow(a, b, c)
